@@ -60,6 +60,9 @@ pub enum Src {
   Interval(u64),
   /// timer(ms) on a new-thread scheduler, mapped to V::U
   Timer(u64),
+  /// interval / timer on the default scheduler: they run on (and block) the subscribing thread
+  IntervalDefault(u64),
+  TimerDefault(u64),
 }
 
 #[derive(Clone, Debug, PartialEq, Eq, Hash, Serialize, Deserialize)]
@@ -312,6 +315,8 @@ pub fn src_name(s: &Src) -> &'static str {
     Src::Endless(_) => "endless",
     Src::Interval(_) => "interval",
     Src::Timer(_) => "timer",
+    Src::IntervalDefault(_) => "interval_default",
+    Src::TimerDefault(_) => "timer_default",
   }
 }
 
